@@ -274,9 +274,13 @@ func (v HV) canon() string {
 // ---------------------------------------------------------------- operations
 
 type HStep struct {
-	Key   string `json:"key,omitempty"`
-	Idx   int    `json:"idx,omitempty"`
-	IsIdx bool   `json:"is_idx,omitempty"`
+	// KeyNum: a numeric index (possibly fractional or negative) applied to an
+	// existing object: it addresses the key that is the number's string form
+	// (Key holds that string; the step is written [KeyNum])
+	KeyNum string `json:"key_num,omitempty"`
+	Key    string `json:"key,omitempty"`
+	Idx    int    `json:"idx,omitempty"`
+	IsIdx  bool   `json:"is_idx,omitempty"`
 }
 
 type HPath struct {
@@ -284,14 +288,32 @@ type HPath struct {
 	Steps []HStep `json:"steps,omitempty"`
 }
 
+func isIdentKey(k string) bool {
+	if k == "" || (k[0] >= '0' && k[0] <= '9') {
+		return false
+	}
+	for i := 0; i < len(k); i++ {
+		c := k[i]
+		if !(c == '_' || (c >= 'a' && c <= 'z') || (c >= 'A' && c <= 'Z') || (c >= '0' && c <= '9')) {
+			return false
+		}
+	}
+	return true
+}
+
 func (p HPath) String() string {
 	var sb strings.Builder
 	sb.WriteString(p.Base)
 	for _, s := range p.Steps {
-		if s.IsIdx {
+		if s.KeyNum != "" {
+			sb.WriteString("[" + s.KeyNum + "]")
+		} else if s.IsIdx {
 			fmt.Fprintf(&sb, "[%d]", s.Idx)
-		} else {
+		} else if isIdentKey(s.Key) {
 			sb.WriteString("." + s.Key)
+		} else {
+			// not spellable as .key: computed member with the key as a string
+			sb.WriteString("[" + strconv.Quote(s.Key) + "]")
 		}
 	}
 	return sb.String()
@@ -463,6 +485,9 @@ func (h *Heap) resolveForWrite(p HPath) (*HCell, error) {
 		v := cur.V
 		if v.K == 'u' || (v.K == 'z' && cur.absent) {
 			// becomes a container of the kind the step needs
+			if s.KeyNum != "" {
+				return nil, errUnsupported{"numeric key on a missing location"}
+			}
 			if s.IsIdx {
 				cur.V = HV{K: 'a', Arr: &HArr{}}
 			} else {
@@ -524,6 +549,9 @@ func (h *Heap) prevalidateWrite(p HPath) error {
 	for _, s := range p.Steps {
 		if fresh {
 			// everything below a fresh container is fresh: only the kind sequence matters
+			if s.KeyNum != "" {
+				return errUnsupported{"numeric key on a missing location"}
+			}
 			if s.IsIdx && s.Idx < 0 {
 				return errUnsupported{"negative index into a fresh array"}
 			}
@@ -1303,7 +1331,18 @@ func genHeapPath(t *Tape, h *Heap, vars []string, forWrite bool) HPath {
 				keys = append(keys, k)
 			}
 			sort.Strings(keys)
-			if len(keys) > 0 && t.Chance(3, 4) {
+			if t.Chance(1, 10) {
+				// a numeric index on an object addresses the key spelled like the number
+				lit := []string{"0", "1", "2", "1.5", "0.5", "2.25", "10", "7"}[t.Draw(8)]
+				f, _ := strconv.ParseFloat(lit, 64)
+				k := fmtNum(f)
+				p.Steps = append(p.Steps, HStep{Key: k, KeyNum: lit})
+				if m, ok := v.Obj.M[k]; ok {
+					v = m.V
+				} else {
+					v = HV{K: 'u'}
+				}
+			} else if len(keys) > 0 && t.Chance(3, 4) {
 				k := keys[t.Draw(len(keys))]
 				p.Steps = append(p.Steps, HStep{Key: k})
 				v = v.Obj.M[k].V
